@@ -41,16 +41,16 @@ type Source struct {
 }
 
 type Config struct {
-	Mode     string   `json:"mode"` // "files" | "reader"
-	Batch    int      `json:"batch"`
-	Workers  int      `json:"workers"`
-	Readers  int      `json:"readers"`
-	Buffer   int      `json:"buffer"`
-	Matcher  string   `json:"matcher"` // "colon" | "always" | "re:<regex>" | "dissect:<pattern>"
-	Extract  string   `json:"extract"`
-	Ignore   []string `json:"ignore"`
-	DelaySeed uint64  `json:"delay_seed"`
-	HoldAll  bool     `json:"hold_all"` // consumer keeps every match and re-reads it after GC
+	Mode      string   `json:"mode"` // "files" | "reader"
+	Batch     int      `json:"batch"`
+	Workers   int      `json:"workers"`
+	Readers   int      `json:"readers"`
+	Buffer    int      `json:"buffer"`
+	Matcher   string   `json:"matcher"` // "colon" | "always" | "re:<regex>" | "dissect:<pattern>"
+	Extract   string   `json:"extract"`
+	Ignore    []string `json:"ignore"`
+	DelaySeed uint64   `json:"delay_seed"`
+	HoldAll   bool     `json:"hold_all"` // consumer keeps every match and re-reads it after GC
 }
 
 type MatchObs struct {
@@ -65,11 +65,11 @@ type MatchObs struct {
 }
 
 type Result struct {
-	Completed bool       `json:"completed"`
-	Note      string     `json:"note,omitempty"`
+	Completed bool   `json:"completed"`
+	Note      string `json:"note,omitempty"`
 	R, M, I   uint64
 	ReadErrs  int        `json:"read_errors"`
-	Matches   []MatchObs `json:"matches"` // consumption order
+	Matches   []MatchObs `json:"matches"`       // consumption order
 	Delivered []string   `json:"delivered_hex"` // reader mode: bytes the scripted reader handed over
 	ReadErr   []bool     `json:"read_err"`      // per source: stream ended in an injected error
 	LogTotal  int        `json:"matcher_calls"`
@@ -249,53 +249,68 @@ func RunDir(cfg Config, sources []Source, dir string) (res Result) {
 	}
 }
 
-func run(cfg Config, sources []Source, dir string) Result {
-	var res Result
+type built struct {
+	batcher *batchers.Batcher
+	ex      *extractor.Extractor
+	readers []*scriptReader
+	nameIdx map[string]int
+	fac     *recFactory
+	rng     *Rng
+}
+
+func build(cfg Config, sources []Source, dir string) (*built, error) {
 	fac, err := factoryFor(cfg.Matcher, cfg.DelaySeed)
 	if err != nil {
-		return Result{Completed: false, Note: err.Error()}
+		return nil, err
 	}
-	rng := NewRng(cfg.DelaySeed)
-	var batcher *batchers.Batcher
-	var readers []*scriptReader
-	nameIdx := map[string]int{}
+	b := &built{fac: fac, rng: NewRng(cfg.DelaySeed), nameIdx: map[string]int{}}
 	switch cfg.Mode {
 	case "reader":
 		s := sources[0]
 		stream, _ := hex.DecodeString(s.Stream)
-		rd := &scriptReader{script: s.Script, stream: stream, rng: rng.Fork()}
-		readers = append(readers, rd)
-		nameIdx[s.Name] = 0
-		batcher = batchers.OpenReaderToChan(s.Name, rd, cfg.Batch, cfg.Buffer)
+		rd := &scriptReader{script: s.Script, stream: stream, rng: b.rng.Fork()}
+		b.readers = append(b.readers, rd)
+		b.nameIdx[s.Name] = 0
+		b.batcher = batchers.OpenReaderToChan(s.Name, rd, cfg.Batch, cfg.Buffer)
 	default:
 		names := make(chan string, len(sources))
 		for i, s := range sources {
 			p := filepath.Join(dir, s.Name)
 			if !s.Missing {
-				b, _ := hex.DecodeString(s.Stream)
-				if err := os.WriteFile(p, b, 0o644); err != nil {
-					return Result{Completed: false, Note: err.Error()}
+				bs, _ := hex.DecodeString(s.Stream)
+				if err := os.WriteFile(p, bs, 0o644); err != nil {
+					return nil, err
 				}
 			}
-			nameIdx[p] = i
+			b.nameIdx[p] = i
 			names <- p
 		}
 		close(names)
-		batcher = batchers.OpenFilesToChan(names, false, cfg.Readers, cfg.Batch, cfg.Buffer)
+		b.batcher = batchers.OpenFilesToChan(names, false, cfg.Readers, cfg.Batch, cfg.Buffer)
 	}
 	var ignore extractor.IgnoreSet
 	if len(cfg.Ignore) > 0 {
 		ignore, err = extractor.NewIgnoreExpressions(cfg.Ignore...)
 		if err != nil {
-			return Result{Completed: false, Note: "ignore: " + err.Error()}
+			return nil, fmt.Errorf("ignore: %v", err)
 		}
 	}
-	ex, err := extractor.New(batcher.BatchChan(), &extractor.Config{
+	b.ex, err = extractor.New(b.batcher.BatchChan(), &extractor.Config{
 		Matcher: fac, Extract: cfg.Extract, Workers: cfg.Workers, Ignore: ignore,
 	})
 	if err != nil {
-		return Result{Completed: false, Note: "extract: " + err.Error()}
+		return nil, fmt.Errorf("extract: %v", err)
 	}
+	return b, nil
+}
+
+func run(cfg Config, sources []Source, dir string) Result {
+	var res Result
+	bl, err := build(cfg, sources, dir)
+	if err != nil {
+		return Result{Completed: false, Note: err.Error()}
+	}
+	batcher, ex, readers, nameIdx, fac, rng := bl.batcher, bl.ex, bl.readers, bl.nameIdx, bl.fac, bl.rng
 	type held struct {
 		m    extractor.Match
 		line []byte
